@@ -6,7 +6,7 @@ AND the intermediate / result objects the library builds itself — is asked eve
 (properties, data attributes, methods callable without arguments, str / repr / hash / len) right after its constructor
 returns, and every list / dict / set that a METHOD returned (exported dictionaries, qualifier exports) is edited in place
 by the "caller" (`_scribble`); a transcript / feature has also been a member of a gene / feature collection that was asked
-everything (`_membership_history`).  Lazily filled fields, `lru_cache`d methods, flag-switched code paths and shared containers are therefore in
+everything (`_membership_history`) and has been lifted onto another sequence chunk (`_derivation_history`).  Lazily filled fields, `lru_cache`d methods, flag-switched code paths and shared containers are therefore in
 their "used" state before the operation's own question is asked.  The Lean drivers get the line WITHOUT the marker
 (the model and the specification are functions of the mathematical operands), so any influence of the history on the
 real answer shows up as a disagreement and as a failed verdict.
@@ -96,11 +96,40 @@ def ask_everything(obj, _top=True):
         _membership_history(obj)
 
 
+def _derivation_history(obj):
+    """An interval from which ANOTHER object has already been derived: it is lifted onto a different sequence chunk
+    (`liftover_to_parent_or_seq_chunk_parent`, window = its span widened by a few bases) and the derived object is asked
+    everything and dropped.  Deriving must read the source, never change it."""
+    try:
+        lift = getattr(obj, "liftover_to_parent_or_seq_chunk_parent", None)
+        parent = getattr(obj, "_parent_or_seq_chunk_parent", None)
+        if lift is None or parent is None or not hasattr(obj, "start"):
+            return
+        from inscripta.biocantor.io.parser import seq_chunk_to_parent
+        from inscripta.biocantor.parent.parent import SequenceType
+        from inscripta.biocantor.sequence.alphabet import Alphabet
+        chrom = parent.first_ancestor_of_type(SequenceType.CHROMOSOME)
+        a, b = max(0, obj.start - 2), obj.end + 3
+        if chrom.sequence is not None:
+            b = min(b, len(chrom.sequence))
+            letters = str(chrom.sequence)[a:b]
+        else:
+            letters = "N" * (b - a)
+        if b <= a:
+            return
+        other = seq_chunk_to_parent(letters, chrom.id, a, b, alphabet=Alphabet.NT_EXTENDED_GAPPED)
+        derived = lift(other)
+    except Exception:  # noqa  (nothing can be derived from this object: nothing to do)
+        return
+    ask_everything(derived, _top=False)
+
+
 def _membership_history(obj):
     """A leaf interval that has ALREADY been a member of an aggregate: a transcript is put into a gene together with a
     sibling isoform (one exon covering the whole locus), a feature into a feature collection with a sibling feature;
     the aggregate is asked every argument-less question (merged transcript / CDS / feature, primary accessors,
     exports ...) and dropped.  Aggregates must read their members, never change them."""
+    _derivation_history(obj)
     try:
         from inscripta.biocantor.gene.transcript import TranscriptInterval
         from inscripta.biocantor.gene.feature import FeatureInterval, FeatureIntervalCollection
